@@ -62,7 +62,12 @@ META = {
         "list, bounded counter, find-then-slice, stream read, counter in the candidate, tree descent - and a cyclic path that provably "
         "changes nothing the loop tests read is a violation (R5); values produced by yaml.safe_load and values read out of them "
         "(front-matter overrides in merge_file_level) are isinstance-narrowed, validated as mappings, or used inside a catching try "
-        "before attribute/subscript/iteration/**-unpack use (R6); a docutils node is offered to the name registry once per path (R7). "
+        "before attribute/subscript/iteration/**-unpack use (R6); a docutils node is offered to the name registry once per path (R7); a render-environment slot that some writer may "
+        "fill with None is dereferenced only under a None test (R8); attributes MyST adds to the docutils document are read plainly only "
+        "where a store/hasattr dominates or every parse path guarantees the store (R9); a config field that a markdown-it plugin divides by "
+        "has a validator excluding 0 (R10, plugin source read); config-supplied rule names reach md.disable() only if the block parser's "
+        "catch-all rule is excluded (R11, markdown-it sources read). The catalogue of yaml.safe_load includes the plain ValueError of "
+        "PyYAML's scalar constructors (read from yaml/constructor.py); urlparse/urlsplit raise ValueError. "
         "The catalogue entry 'tuple-unpack' evaluates the length of a split-derived right-hand side (maxsplit, separator test, slices, "
         "padding, len() guards) for every split length up to a bound above all constants."
     ),
@@ -111,7 +116,111 @@ def r1_failure_mode_closure(corpus: Corpus, rep: Report, tier: str):
             w = witnesses.get((fq_, text))
             if w and w not in it.what:
                 it.what += f" [unpacking raises ValueError: {w}]"
+    # an origin that only runs under a flag parameter which every package-internal call chain fixes to False
+    # (``if as_yaml:`` with ``as_yaml=not validate_options`` and no internal caller passing validate_options)
+    # is dead for the entries outside that chain; the escape summaries are path-insensitive, so decide it here
+    for it in rep.items:
+        if it.rule == "C01.R1" and it.status == "violation" and "|origin=" in it.key:
+            entry_fq = it.key.split("|", 1)[0].removeprefix("entry=")
+            fq_, _, text = it.key.split("|origin=", 1)[1].partition("|")
+            dead = _dead_under_flag(corpus, fq_, text)
+            if dead is not None and entry_fq not in dead[1]:
+                it.status = "ok"
+                it.what = dead[0]
+                it.path = []
     rep.expect_min("C01.R1", 60, "raise sites, asserts and catalogued calls reachable from the entries")
+
+
+def _dead_under_flag(corpus: Corpus, origin_fq: str, text: str) -> tuple[str, set[str]] | None:
+    """(reason, functions whose own callers decide the flag) when the origin construct is guarded by a parameter
+    that is constantly false on every package-internal call chain."""
+    if not corpus.has_func(origin_fq):
+        return None
+    fi = corpus.func(origin_fq)
+    if fi.is_lambda:
+        return None
+    node = next((n for n in fi.local_nodes() if isinstance(n, (ast.expr, ast.stmt)) and short(n) == text), None)
+    if node is None:
+        return None
+    try:
+        cfg = get_cfg(fi)
+        facts = cfg.guards(cfg.stmt_of(node))
+    except Unsupported:
+        return None
+    g = get_callgraph(corpus)
+    for test, pol in facts:
+        if not (isinstance(test, ast.Name) and test.id in fi.params and not _rebound(fi, test.id)):
+            continue
+        chain: set[str] = set()
+        val = _param_constant(corpus, g, fi, test.id, chain, 0)
+        if val is not None and bool(val) != pol:
+            return (
+                f"runs only under `{test.id}`, which every call chain inside the package fixes to {val!r} "
+                f"(decided by the callers of: {', '.join(sorted(c.split(':')[1] for c in chain))})",
+                chain,
+            )
+    return None
+
+
+def _param_constant(corpus: Corpus, g, fi: FunctionInfo, pname: str, chain: set[str], depth: int):
+    """The constant every package-internal caller passes for ``pname`` (None when it varies or cannot be decided)."""
+    if depth > 3 or fi.is_lambda:
+        return None
+    chain.add(fi.fq)
+    a = fi.node.args
+    pos = [x.arg for x in a.posonlyargs + a.args]
+    defaults: dict[str, ast.expr] = {}
+    for p_, d in zip(reversed(a.posonlyargs + a.args), reversed(a.defaults)):
+        defaults[p_.arg] = d
+    for p_, d in zip(a.kwonlyargs, a.kw_defaults):
+        if d is not None:
+            defaults[p_.arg] = d
+    sites = g.callers().get(fi.fq, [])
+    if not sites:
+        return None
+    vals = set()
+    for caller, call in sites:
+        if any(isinstance(x, ast.Starred) for x in call.args) or any(k.arg is None for k in call.keywords):
+            return None
+        ppos = pos[1:] if fi.cls is not None and isinstance(call.func, ast.Attribute) and "staticmethod" not in fi.decorators() else pos
+        bound = dict(zip(ppos, call.args))
+        for k in call.keywords:
+            bound[k.arg] = k.value
+        e = bound.get(pname, defaults.get(pname))
+        v = _const_value(corpus, g, e, caller, chain, depth)
+        if v is None:
+            return None
+        vals.add(v[0])
+    return vals.pop() if len(vals) == 1 else None
+
+
+def _const_value(corpus: Corpus, g, e: ast.expr | None, fi: FunctionInfo, chain: set[str], depth: int):
+    """(value,) of a boolean-ish constant expression over the caller's own parameters, else None."""
+    if e is None:
+        return None
+    if isinstance(e, ast.Constant):
+        return (e.value,)
+    if isinstance(e, ast.UnaryOp) and isinstance(e.op, ast.Not):
+        v = _const_value(corpus, g, e.operand, fi, chain, depth)
+        return None if v is None else (not v[0],)
+    if isinstance(e, ast.Name) and not fi.is_lambda and e.id in fi.params and not _rebound(fi, e.id):
+        a = fi.node.args
+        defaults: dict[str, ast.expr] = {}
+        for p_, d in zip(reversed(a.posonlyargs + a.args), reversed(a.defaults)):
+            defaults[p_.arg] = d
+        for p_, d in zip(a.kwonlyargs, a.kw_defaults):
+            if d is not None:
+                defaults[p_.arg] = d
+        d = defaults.get(e.id)
+        if not isinstance(d, ast.Constant):
+            return None
+        sites = g.callers().get(fi.fq, [])
+        chain.add(fi.fq)
+        if not sites:
+            return (d.value,)  # only external callers could pass something else: they are entries of their own
+        v = _param_constant(corpus, g, fi, e.id, chain, depth + 1)
+        return None if v is None or v != d.value else (v,)
+    return None
 
 
 # ---------------------------------------------------------------------------
@@ -122,6 +231,7 @@ def r1_failure_mode_closure(corpus: Corpus, rep: Report, tier: str):
 # markdown-it / mdit-py-plugins block rules, re-read in the thorough tier.
 TOKEN_LINE_OK = {
     "DocutilsRenderer.render_html_block": "html_block: block rule sets map; html_inline: inline child",
+    "DocutilsRenderer.render_html_inline": "html_inline is an inline child: it receives its block parent's map in _render_tokens (checked below)",
     "DocutilsRenderer.render_footnote_reference": "footnote_reference_open.map assigned in footnote_def",
     "DocutilsRenderer.render_dl": "dt/dd tokens: deflist rule assigns map",
     "DocutilsRenderer.render_field_list": "fieldlist_name: field_list rule assigns map",
@@ -692,11 +802,80 @@ def _counter_variant(w: ast.While, fi: FunctionInfo, test: ast.expr) -> str | No
     return None
 
 
+_GROWERS = ("append", "extend", "insert", "appendleft", "extendleft")
+
+
+def _worklist_variant(w: ast.While, fi: FunctionInfo, test: ast.expr) -> str | None:
+    """``while todo: x = todo.pop(..); ...; todo.extend(x.children)``: every cyclic path removes one element and the
+    only additions are the children of the element just removed - a traversal of a finite tree."""
+    for nm in sorted(_requires_nonempty(test)):
+        if not _every_cyclic_path(w, fi, lambda c: isinstance(c, ast.Call) and _shrinks(c, nm)):
+            continue
+        popped = {
+            c.targets[0].id
+            for c in ast.walk(w)
+            if isinstance(c, ast.Assign) and len(c.targets) == 1 and isinstance(c.targets[0], ast.Name) and isinstance(c.value, ast.Call) and _shrinks(c.value, nm)
+        }
+        grow_calls = [c for c in ast.walk(w) if isinstance(c, ast.Call) and isinstance(c.func, ast.Attribute) and c.func.attr in _GROWERS and unparse(c.func.value) == nm]
+        other = [
+            c
+            for c in ast.walk(w)
+            if (isinstance(c, ast.Name) and c.id == nm and isinstance(c.ctx, (ast.Store, ast.Del)))
+            or (isinstance(c, ast.AugAssign) and isinstance(c.target, ast.Name) and c.target.id == nm)
+            or (isinstance(c, ast.Subscript) and isinstance(c.ctx, ast.Store) and isinstance(c.value, ast.Name) and c.value.id == nm)
+        ]
+        if not grow_calls or other or not popped:
+            continue
+
+        def children_of_popped(e: ast.expr) -> bool:
+            if isinstance(e, ast.BoolOp) and isinstance(e.op, ast.Or):
+                return children_of_popped(e.values[0]) and all(isinstance(v, (ast.List, ast.Tuple)) and not v.elts for v in e.values[1:])
+            if isinstance(e, ast.Call) and dotted(e.func) in ("reversed", "list", "tuple") and len(e.args) == 1:
+                return children_of_popped(e.args[0])
+            return isinstance(e, ast.Attribute) and e.attr == "children" and isinstance(e.value, ast.Name) and e.value.id in popped
+
+        if all(c.func.attr in ("extend", "extendleft") and len(c.args) == 1 and children_of_popped(c.args[0]) for c in grow_calls):
+            return f"tree worklist on {nm}: every cyclic path removes one element; only the children of the removed element are added (finite tree)"
+    return None
+
+
 def _loop_variant(w: ast.While, fi: FunctionInfo, corpus: Corpus) -> str | None:
     test = _effective_test(w)
-    v = _counter_variant(w, fi, test)
+    v = _counter_variant(w, fi, test) or _worklist_variant(w, fi, test)
     if v:
         return v
+    # the test itself removes an element of a collection that the body never refills
+    for c in ast.walk(test):
+        if isinstance(c, ast.Call) and isinstance(c.func, ast.Attribute) and c.func.attr in ("pop", "popleft"):
+            coll = unparse(c.func.value)
+            refills = any(
+                (isinstance(x, ast.Call) and isinstance(x.func, ast.Attribute) and x.func.attr in _GROWERS and unparse(x.func.value) == coll)
+                or (isinstance(x, (ast.Name, ast.Attribute)) and isinstance(x.ctx, ast.Store) and unparse(x) == coll)
+                for st in w.body
+                for x in ast.walk(st)
+            )
+            if not refills:
+                return f"every evaluation of the test pops an element of {coll}, which the body never refills (an empty collection ends the loop with IndexError)"
+    # the flag in the test is recomputed on every cyclic path from the result of a stream read
+    flag = test.operand if isinstance(test, ast.UnaryOp) and isinstance(test.op, ast.Not) else None
+    if isinstance(flag, ast.Attribute):
+        ftxt = unparse(flag)
+        reads_ = {
+            c.targets[0].id
+            for st in w.body
+            for c in ast.walk(st)
+            if isinstance(c, ast.Assign) and len(c.targets) == 1 and isinstance(c.targets[0], ast.Name) and isinstance(c.value, ast.Call)
+            and isinstance(c.value.func, ast.Attribute) and c.value.func.attr in ("read", "read1", "readline", "recv")
+        }
+
+        def sets_flag(c):
+            return (
+                isinstance(c, ast.Assign) and len(c.targets) == 1 and unparse(c.targets[0]) == ftxt
+                and any(isinstance(x, ast.Name) and x.id in reads_ for x in ast.walk(c.value))
+            )
+
+        if reads_ and _every_cyclic_path(w, fi, sets_flag) and _every_cyclic_path(w, fi, lambda c: isinstance(c, ast.Assign) and len(c.targets) == 1 and isinstance(c.targets[0], ast.Name) and c.targets[0].id in reads_):
+            return f"`{ftxt}` is recomputed on every cyclic path from what a stream read returned (finite stream assumed)"
     # shrink-until-empty: the test implies the collection is non-empty, every cyclic path removes an element
     for nm in sorted(_requires_nonempty(test)):
         if _every_cyclic_path(w, fi, lambda c: _shrinks(c, nm)):
@@ -1369,7 +1548,571 @@ def _second_plain_registration(fi: FunctionInfo, nm: str, lst: list):
     return found
 
 
-RULES = [r1_failure_mode_closure, r2_token_line, r3_html_attr_none, r4_reentry_guards, r5_loop_progress, r6_yaml_narrowing, r7_single_registration]
+# ---------------------------------------------------------------------------
+# shared: facts that hold where an expression is evaluated (statement dominance + short-circuit operators)
+
+
+def _facts_at(fi: FunctionInfo, node: ast.AST) -> list[tuple[ast.expr, bool]]:
+    from ..flow import facts as _atomic
+
+    out: list[tuple[ast.expr, bool]] = []
+    cur: ast.AST = node
+    for a in ancestors(node):
+        if isinstance(a, (ast.stmt, ast.Lambda)):
+            break
+        if isinstance(a, ast.BoolOp) and cur in a.values:
+            for v in a.values[: a.values.index(cur)]:
+                out += _atomic(v, isinstance(a.op, ast.And))
+        if isinstance(a, ast.IfExp) and cur is not a.test:
+            out += _atomic(a.test, cur is a.body)
+        if isinstance(a, (ast.ListComp, ast.GeneratorExp, ast.SetComp, ast.DictComp)) and cur is not a.generators[0].iter:
+            for g_ in a.generators:
+                for t in g_.ifs:
+                    if t is not cur:
+                        out += _atomic(t, True)
+        cur = a
+    cfg = get_cfg(fi)
+    out += cfg.guards(cfg.stmt_of(node))
+    return out
+
+
+# ---------------------------------------------------------------------------
+# R8 slots of the render environment that may hold None
+#
+# ``md_env`` is a plain dict shared by the renderer and the directive mocks.  A slot into which some writer stores
+# a value that may be None (the include mock *restores* the previous value, i.e. stores None when the slot was
+# unset) is NULLABLE: a key-presence test says nothing about it.  Every reader that dereferences the slot value
+# (tuple-unpack, subscript, attribute call, iteration) must be dominated by an ``is not None`` / truthiness test of
+# that value.
+
+
+def _env_slot(e: ast.AST) -> tuple[str, str] | None:
+    """(slot key, 'get'|'item') when ``e`` reads ``<..>.md_env[K]`` / ``<..>.md_env.get(K[, d])``."""
+    if isinstance(e, ast.Subscript) and (dotted(e.value) or "").split(".")[-1] == "md_env" and isinstance(e.slice, ast.Constant) and isinstance(e.slice.value, str):
+        return (e.slice.value, "item")
+    if (
+        isinstance(e, ast.Call)
+        and isinstance(e.func, ast.Attribute)
+        and e.func.attr == "get"
+        and (dotted(e.func.value) or "").split(".")[-1] == "md_env"
+        and e.args
+        and isinstance(e.args[0], ast.Constant)
+        and isinstance(e.args[0].value, str)
+    ):
+        return (e.args[0].value, "get")
+    return None
+
+
+def _local_value(fi: FunctionInfo, e: ast.expr) -> ast.expr:
+    return _single_def(fi, e) if isinstance(e, ast.Name) else e
+
+
+@rule("C01.R8")
+def r8_nullable_env_slots(corpus: Corpus, rep: Report, tier: str):
+    rep.rule("C01.R8", "a render-environment slot into which some writer may store None is dereferenced only under an `is not None` / truthiness test of its value")
+    funcs = [f for f in corpus.all_functions() if not f.is_lambda]
+    nullable: dict[str, str] = {}
+    n_writers = 0
+    for fi in funcs:
+        for n in fi.local_nodes():
+            if not (isinstance(n, ast.Assign) and len(n.targets) == 1):
+                continue
+            t = n.targets[0]
+            if not (isinstance(t, ast.Subscript) and (dotted(t.value) or "").split(".")[-1] == "md_env" and isinstance(t.slice, ast.Constant) and isinstance(t.slice.value, str)):
+                continue
+            n_writers += 1
+            v = _local_value(fi, n.value)
+            why = None
+            if isinstance(v, ast.Constant) and v.value is None:
+                why = "None is stored"
+            else:
+                sl = _env_slot(v)
+                if sl is not None and sl[1] == "get" and (len(v.args) == 1 or (isinstance(v.args[1], ast.Constant) and v.args[1].value is None)):
+                    why = f"the previous value `{short(v, 40)}` (None when the slot was unset) is stored back"
+                elif isinstance(n.value, ast.Name) and fi.params and n.value.id in fi.params:
+                    why = None  # a parameter: not tracked
+            if why:
+                nullable.setdefault(t.slice.value, f"{fi.module.site(n)}: {why}")
+    n_readers = 0
+    seen_keys: dict[str, int] = {}
+    for fi in funcs:
+        for n in sorted((x for x in fi.local_nodes() if hasattr(x, "lineno")), key=lambda x: (x.lineno, x.col_offset)):
+            sl = _env_slot(n)
+            if sl is None or (isinstance(n, ast.Subscript) and not isinstance(n.ctx, ast.Load)):
+                continue
+            key = sl[0]
+            # the places where the slot value is dereferenced: directly, or through the local it is bound to
+            derefs: list[ast.AST] = []
+            holders: list[str] = []
+            p_ = parent(n)
+            if isinstance(p_, ast.Assign) and p_.value is n and len(p_.targets) == 1:
+                tg = p_.targets[0]
+                if isinstance(tg, ast.Name):
+                    if _single_def(fi, ast.Name(id=tg.id, ctx=ast.Load())) is n:
+                        holders.append(tg.id)
+                elif isinstance(tg, (ast.Tuple, ast.List)):
+                    derefs.append(n)
+            elif isinstance(p_, (ast.Subscript, ast.Attribute)) and p_.value is n:
+                derefs.append(n)
+            elif isinstance(p_, (ast.For, ast.comprehension)) and p_.iter is n:
+                derefs.append(n)
+            elif isinstance(p_, ast.Starred):
+                derefs.append(n)
+            for h in holders:
+                for u in fi.local_nodes():
+                    if isinstance(u, ast.Name) and u.id == h and isinstance(u.ctx, ast.Load):
+                        q = parent(u)
+                        if (isinstance(q, (ast.Subscript, ast.Attribute)) and q.value is u) or (isinstance(q, (ast.For, ast.comprehension)) and q.iter is u) or isinstance(q, ast.Starred):
+                            derefs.append(u)
+                        elif isinstance(q, ast.Assign) and q.value is u and isinstance(q.targets[0], (ast.Tuple, ast.List)):
+                            derefs.append(u)
+            if not derefs:
+                continue
+            for d in derefs:
+                n_readers += 1
+                q_ = parent(d)
+                kind = (
+                    "unpack" if isinstance(q_, ast.Assign) else "subscript" if isinstance(q_, ast.Subscript) else "attribute" if isinstance(q_, ast.Attribute)
+                    else "iteration"
+                )
+                k = f"{fi.fq}|md_env[{key!r}]|{kind}"
+                seen_keys[k] = seen_keys.get(k, 0) + 1
+                if seen_keys[k] > 1:
+                    k += f"#{seen_keys[k]}"
+                site = fi.module.site(d)
+                if key not in nullable:
+                    rep.ok("C01.R8", k, site, "no writer stores a possibly-None value into this slot")
+                    continue
+
+                def same_value(e: ast.AST) -> bool:
+                    if isinstance(e, ast.Name):
+                        return e.id in holders or (isinstance(d, ast.Name) and e.id == d.id)
+                    s2 = _env_slot(e)
+                    return s2 is not None and s2[0] == key
+
+                ok = False
+                for t, pol in _facts_at(fi, d):
+                    if same_value(t) and pol:
+                        ok = True
+                    if isinstance(t, ast.Compare) and len(t.ops) == 1 and same_value(t.left) and isinstance(t.comparators[0], ast.Constant) and t.comparators[0].value is None:
+                        if (isinstance(t.ops[0], ast.IsNot) and pol) or (isinstance(t.ops[0], ast.Is) and not pol):
+                            ok = True
+                    if isinstance(t, ast.Call) and dotted(t.func) == "isinstance" and t.args and same_value(t.args[0]) and pol:
+                        ok = True
+                if ok or _inside_broad_try(d, False) or (_inside_try_catching(d, "TypeError") and not isinstance(q_, ast.Attribute)):
+                    rep.ok("C01.R8", k, site, "under an `is not None` / truthiness / isinstance test of the slot value (or a try that catches the TypeError)")
+                else:
+                    rep.violation(
+                        "C01.R8",
+                        k,
+                        site,
+                        f"`{short(parent(d), 60)}` dereferences md_env[{key!r}] without a None test of the value, but the slot may hold None ({nullable[key]}): "
+                        "a key-presence test does not exclude it -> TypeError out of the parse",
+                    )
+    if n_writers < 4:
+        rep.error("C01.R8", f"expected the md_env writers of the renderer and the include mock, found {n_writers}")
+    rep.expect_min("C01.R8", 1, "dereferencing readers of md_env slots")
+
+
+# ---------------------------------------------------------------------------
+# R9 attributes MyST adds to the docutils document are read defensively where the writer may not have run
+#
+# docutils applies the parser's transforms even when ``Parser.parse`` returned early.  An attribute that only the
+# renderer sets (``document.myst_slugs`` in ``_render_finalise``) therefore need not exist when a transform runs.
+
+
+def _docutils_document_attrs(corpus: Corpus) -> set[str]:
+    def compute():
+        m = corpus.sibling("docutils/nodes.py")
+        out: set[str] = set()
+        for cname in ("document", "Element", "Node", "Structural", "Root"):
+            ci = m.classes.get(cname)
+            if ci is None:
+                continue
+            for n in ast.walk(ci.node):
+                if isinstance(n, ast.Attribute) and isinstance(n.value, ast.Name) and n.value.id == "self":
+                    out.add(n.attr)
+                if isinstance(n, (ast.FunctionDef,)):
+                    out.add(n.name)
+            for st in ci.node.body:
+                if isinstance(st, ast.Assign):
+                    for t in st.targets:
+                        if isinstance(t, ast.Name):
+                            out.add(t.id)
+                if isinstance(st, ast.AnnAssign) and isinstance(st.target, ast.Name):
+                    out.add(st.target.id)
+        if len(out) < 30:
+            raise AnchorMissing("docutils.nodes.document attributes could not be read")
+        return out
+
+    return corpus.cache("c01-docutils-document-attrs", compute)
+
+
+def _is_document(e: ast.AST) -> bool:
+    return (dotted(e) or "").split(".")[-1] == "document"
+
+
+@rule("C01.R9")
+def r9_document_attributes(corpus: Corpus, rep: Report, tier: str):
+    rep.rule(
+        "C01.R9",
+        "an attribute that MyST itself adds to the docutils document is read plainly only after a store / hasattr test in the same function, "
+        "or (in code run by transforms) when every parse path is guaranteed to have stored it",
+    )
+    known = _docutils_document_attrs(corpus)
+    g = get_callgraph(corpus)
+    funcs = [f for f in corpus.all_functions() if not f.is_lambda]
+    writers: dict[str, list[tuple[FunctionInfo, ast.AST]]] = {}
+    for fi in funcs:
+        for n in fi.local_nodes():
+            if isinstance(n, ast.Attribute) and isinstance(n.ctx, ast.Store) and _is_document(n.value) and n.attr not in known:
+                writers.setdefault(n.attr, []).append((fi, n))
+    if len(writers) < 2:
+        rep.error("C01.R9", f"expected MyST-specific document attributes (myst_slugs, myst_include_stack, ...), found {sorted(writers)}")
+    transform_entries = [corpus.func(fq) for _, fq, _ in FRONT_ENTRIES if not fq.endswith(".parse")]
+    after_parse = set(g.reachable(transform_entries))
+    n = 0
+    seen_keys: dict[str, int] = {}
+    for fi in funcs:
+        for r in sorted((x for x in fi.local_nodes() if hasattr(x, "lineno")), key=lambda x: (x.lineno, x.col_offset)):
+            if not (isinstance(r, ast.Attribute) and isinstance(r.ctx, ast.Load) and _is_document(r.value) and r.attr in writers):
+                continue
+            n += 1
+            attr = r.attr
+            k = f"{fi.fq}|document.{attr}"
+            seen_keys[k] = seen_keys.get(k, 0) + 1
+            if seen_keys[k] > 1:
+                k += f"#{seen_keys[k]}"
+            site = fi.module.site(r)
+            cfg = get_cfg(fi)
+            R = cfg.stmt_of(r)
+
+            def establishes(nd) -> bool:
+                if isinstance(nd, ast.stmt):
+                    for e in _own_exprs(nd):
+                        for x in ast.walk(e):
+                            if isinstance(x, ast.Attribute) and x.attr == attr and isinstance(x.ctx, ast.Store) and _is_document(x.value):
+                                return nd is not R
+                    return False
+                if isinstance(nd, tuple) and nd[0] in ("T", "F") and isinstance(nd[1], (ast.If, ast.While)):
+                    from ..flow import facts as _atomic
+
+                    for t, pol in _atomic(nd[1].test, nd[0] == "T"):
+                        if pol and isinstance(t, ast.Call) and dotted(t.func) == "hasattr" and len(t.args) == 2 and _is_document(t.args[0]) and isinstance(t.args[1], ast.Constant) and t.args[1].value == attr:
+                            return True
+                return False
+
+            local_ok = not cfg.paths_avoiding("ENTRY", R, establishes)
+            if not local_ok:
+                # `doc.A = getattr(doc, "A", d)` style: the read statement itself stores first? (no: RHS first) - only
+                # facts inside the expression remain
+                for t, pol in _facts_at(fi, r):
+                    if pol and isinstance(t, ast.Call) and dotted(t.func) == "hasattr" and len(t.args) == 2 and isinstance(t.args[1], ast.Constant) and t.args[1].value == attr:
+                        local_ok = True
+            if local_ok or _inside_try_catching(r, "AttributeError"):
+                rep.ok("C01.R9", k, site, "every path to the read stores the attribute or tests hasattr first")
+                continue
+            if fi.fq not in after_parse:
+                rep.error("C01.R9", f"{site}: `{short(r, 40)}` relies on a store in another function during the same render; that order is not modelled")
+                continue
+            gap = _parse_gap(corpus, attr, writers[attr])
+            if gap is None:
+                rep.ok("C01.R9", k, site, "every path of both parse methods runs the renderer, whose render() always reaches the store")
+            else:
+                rep.violation(
+                    "C01.R9",
+                    k,
+                    site,
+                    f"`{short(r, 40)}` is read by code that docutils runs after the parse (transform / post-transform), but the attribute is only stored by "
+                    f"{', '.join(sorted({w.qualname for w, _ in writers[attr]}))} and {gap}: AttributeError out of the transform; read it with getattr(..., default)",
+                )
+    rep.expect_min("C01.R9", 4, "plain reads of MyST-specific document attributes")
+
+
+def enclosing_stmt_(node: ast.AST) -> ast.AST:
+    while not isinstance(node, ast.stmt) and parent(node) is not None:
+        node = parent(node)
+    return node
+
+
+def _inside_try_catching(node: ast.AST, exc: str) -> bool:
+    cur = node
+    for a in ancestors(node):
+        if isinstance(a, (ast.FunctionDef, ast.Lambda)):
+            break
+        if isinstance(a, ast.Try) and any(cur is s for s in a.body):
+            for h in a.handlers:
+                elts = [None] if h.type is None else (h.type.elts if isinstance(h.type, ast.Tuple) else [h.type])
+                names = {"BaseException" if t is None else (dotted(t) or "").split(".")[-1] for t in elts}
+                if names & {exc, "Exception", "BaseException"}:
+                    return True
+        cur = a
+    return False
+
+
+def _parse_gap(corpus: Corpus, attr: str, ws: list[tuple[FunctionInfo, ast.AST]]) -> str | None:
+    """None when the store is guaranteed after every normal return of both parse methods; else the reason."""
+    # (1) a writer function that stores on all of its paths and that DocutilsRenderer.render always calls
+    by_render = False
+    render = corpus.func("mdit_to_docutils.base:DocutilsRenderer.render")
+    for wf, wn in ws:
+        wcfg = get_cfg(wf)
+        W = wcfg.stmt_of(wn)
+        if wcfg.paths_avoiding("ENTRY", "EXIT", lambda nd: nd is W):
+            continue
+        rcfg = get_cfg(render)
+        calls = [c for c in render.local_nodes() if isinstance(c, ast.Call) and isinstance(c.func, ast.Attribute) and c.func.attr == wf.name and dotted(c.func.value) == "self"]
+        stmts = [rcfg.stmt_of(c) for c in calls]
+        if wf.fq == render.fq or (stmts and not rcfg.paths_avoiding("ENTRY", "EXIT", lambda nd: any(nd is s_ for s_ in stmts))):
+            by_render = True
+    # (2) every normal path of the parse methods runs `<parser>.render(...)` or stores the attribute itself
+    for _, fq, _ in FRONT_ENTRIES:
+        if not fq.endswith(".parse"):
+            continue
+        pf = corpus.func(fq)
+        pcfg = get_cfg(pf)
+        good = []
+        if by_render:
+            good += [pcfg.stmt_of(c) for c in pf.local_nodes() if isinstance(c, ast.Call) and isinstance(c.func, ast.Attribute) and c.func.attr == "render"]
+        good += [pcfg.stmt_of(x) for x in pf.local_nodes() if isinstance(x, ast.Attribute) and x.attr == attr and isinstance(x.ctx, ast.Store) and _is_document(x.value)]
+        if not good:
+            return f"nothing on the paths of {pf.qualname} is known to store it"
+        if pcfg.paths_avoiding("ENTRY", "EXIT", lambda nd: any(nd is s_ for s_ in good)):
+            first = min(s_.lineno for s_ in good)
+            early = [x for x in pf.local_nodes() if isinstance(x, ast.Return) and x.lineno < first]
+            where = f" (e.g. the `return` at {pf.module.site(early[0])})" if early else ""
+            return f"{pf.qualname} can return without running the renderer{where}, while docutils still applies the transforms"
+    return None
+
+
+# ---------------------------------------------------------------------------
+# R10 configuration values that a markdown-it plugin divides by
+# R11 syntax names handed to md.disable() must not include the block parser's catch-all rule
+
+
+def _plugin_function(corpus: Corpus, fi: FunctionInfo, e: ast.expr):
+    full = fi.module.resolve(dotted(e) or "")
+    for _ in range(4):  # follow re-exports (`from .index import plugin` in the package __init__)
+        modname, _, fname = full.rpartition(".")
+        m = corpus.sibling_module(modname) if modname else None
+        if m is None:
+            return None
+        if fname in m.functions:
+            return m.functions[fname]
+        if fname in m.imports and m.imports[fname] != full:
+            full = m.imports[fname]
+            continue
+        return None
+    return None
+
+
+def _excludes_zero(test: ast.expr) -> bool:
+    """The test is true for 0 (so a raise under it rejects 0)."""
+    parts = test.values if isinstance(test, ast.BoolOp) and isinstance(test.op, ast.Or) else [test]
+    for t in parts:
+        if isinstance(t, ast.UnaryOp) and isinstance(t.op, ast.Not) and isinstance(t.operand, ast.Name) and t.operand.id == "value":
+            return True
+        if isinstance(t, ast.Compare) and len(t.ops) == 1 and isinstance(t.left, ast.Name) and t.left.id == "value" and isinstance(t.comparators[0], ast.Constant) and isinstance(t.comparators[0].value, (int, float)):
+            c, op = t.comparators[0].value, t.ops[0]
+            if (isinstance(op, ast.LtE) and c >= 0) or (isinstance(op, ast.Lt) and c > 0) or (isinstance(op, ast.Eq) and c == 0):
+                return True
+    return False
+
+
+def _validator_rejects(corpus: Corpus, v: ast.expr | None, accepts_pred, const_ok) -> bool:
+    """Some validator in the expression rejects the bad value: ``in_([...])`` whose options all satisfy ``const_ok``,
+    or a validator function of the package with ``if <test that holds for the bad value>: raise``."""
+    if v is None:
+        return False
+    if isinstance(v, ast.List):
+        return any(_validator_rejects(corpus, x, accepts_pred, const_ok) for x in v.elts)
+    if isinstance(v, ast.Call):
+        name = (dotted(v.func) or "").split(".")[-1]
+        if name == "in_" and v.args and isinstance(v.args[0], (ast.List, ast.Tuple, ast.Set)):
+            return all(isinstance(x, ast.Constant) and const_ok(x.value) for x in v.args[0].elts)
+        if name in ("deep_iterable", "optional") and v.args:
+            return False if name == "optional" else _validator_rejects(corpus, v.args[0], accepts_pred, const_ok)
+        return False
+    if isinstance(v, ast.Name):
+        for modname in ("config.main", "config.dc_validators"):
+            f = corpus.mod(modname).functions.get(v.id)
+            if f is not None:
+                for st in f.local_nodes():
+                    if isinstance(st, ast.If) and st.body and any(isinstance(x, ast.Raise) for x in st.body) and accepts_pred(st.test):
+                        return True
+    return False
+
+
+@rule("C01.R10")
+def r10_config_divisors(corpus: Corpus, rep: Report, tier: str):
+    rep.rule("C01.R10", "a configuration field handed to a markdown-it plugin keyword that the plugin divides by has a validator that excludes 0")
+    mm = corpus.mod("parsers.mdit")
+    fields = _config_fields(corpus)
+    n = 0
+    done = set()
+    for fi in mm.functions.values():
+        if fi.is_lambda:
+            continue
+        for c in fi.local_nodes():
+            if not (isinstance(c, ast.Call) and isinstance(c.func, ast.Attribute) and c.func.attr == "use" and c.args):
+                continue
+            for kw in c.keywords:
+                v = kw.value
+                if not (kw.arg and isinstance(v, ast.Attribute) and isinstance(v.value, ast.Name) and v.attr in fields):
+                    continue
+                n += 1
+                pf = _plugin_function(corpus, fi, c.args[0])
+                if pf is None:
+                    rep.error("C01.R10", f"{fi.module.site(c)}: plugin `{short(c.args[0], 30)}` could not be read from its source")
+                    continue
+                rep.saw_sibling(pf.module.rel)
+                divs = [
+                    b
+                    for b in ast.walk(pf.node)
+                    if isinstance(b, ast.BinOp) and isinstance(b.op, (ast.Div, ast.FloorDiv, ast.Mod)) and isinstance(b.right, ast.Name) and b.right.id == kw.arg
+                ]
+                rebound = any(isinstance(x, ast.Name) and x.id == kw.arg and isinstance(x.ctx, ast.Store) for x in ast.walk(pf.node))
+                k = f"myst_parser.config.main:MdParserConfig.{v.attr}|{kw.arg}= of {pf.name}"
+                if k in done:
+                    continue
+                done.add(k)
+                site = fi.module.site(c)
+                if not divs:
+                    rep.ok("C01.R10", k, site, "the plugin does not divide by this keyword")
+                elif rebound:
+                    rep.error("C01.R10", f"{site}: {pf.name} re-binds `{kw.arg}` before dividing by it")
+                elif _validator_rejects(corpus, fields[v.attr].get("validator"), _excludes_zero, lambda x: isinstance(x, (int, float)) and x != 0):
+                    rep.ok("C01.R10", k, site, "divisor; the field's validator rejects 0")
+                else:
+                    rep.violation(
+                        "C01.R10",
+                        k,
+                        site,
+                        f"`{pf.name}` computes `{short(divs[0], 50)}` ({pf.module.rel}:{divs[0].lineno}); the field `{v.attr}` is validated by "
+                        f"`{short(fields[v.attr].get('validator') or ast.Constant(None), 50)}`, which admits 0 (conf.py or front matter `myst: {{{v.attr}: 0}}`): ZeroDivisionError out of the parse",
+                    )
+    rep.expect_min("C01.R10", 1, "config fields passed to plugin keywords")
+
+
+@rule("C01.R11")
+def r11_disable_syntax(corpus: Corpus, rep: Report, tier: str):
+    rep.rule(
+        "C01.R11",
+        "rule names from the configuration reach md.disable() only if they cannot be the block parser's catch-all rule (without it markdown-it's block loop never advances)",
+    )
+    # markdown-it facts, re-read from the sibling sources: the block loop advances only through a rule that
+    # returns True; the last rule of the chain is the catch-all (its function never returns False)
+    pb = corpus.sibling("markdown_it/parser_block.py")
+    rep.saw_sibling(pb.rel)
+    rules_node = pb.const_nodes.get("_rules")
+    if not isinstance(rules_node, ast.List) or not rules_node.elts:
+        raise Unsupported("markdown_it.parser_block._rules is not a list display")
+    last = rules_node.elts[-1]
+    if not (isinstance(last, ast.Tuple) and isinstance(last.elts[0], ast.Constant) and isinstance(last.elts[1], ast.Attribute)):
+        raise Unsupported("last entry of markdown_it.parser_block._rules not understood")
+    catch_all = last.elts[0].value
+    fn_name = last.elts[1].attr
+    rm = corpus.sibling(f"markdown_it/rules_block/{fn_name}.py")
+    rf = rm.functions.get(fn_name)
+    if rf is None:
+        raise Unsupported(f"markdown-it block rule {fn_name} not found")
+    rets = [r for r in rf.local_nodes() if isinstance(r, ast.Return)]
+    if not rets or not all(isinstance(r.value, ast.Constant) and r.value.value is True for r in rets):
+        raise Unsupported(f"markdown-it's last block rule `{catch_all}` can return False: the catch-all assumption does not hold for this version")
+    tok = pb.functions.get("ParserBlock.tokenize")
+    loop = next((w for w in (tok.local_nodes() if tok else []) if isinstance(w, ast.While)), None)
+    if loop is None or not any(isinstance(x, ast.For) and any(isinstance(b, ast.Break) for b in ast.walk(x)) for x in ast.walk(loop)):
+        raise Unsupported("markdown_it ParserBlock.tokenize: rule loop not found")
+    mm = corpus.mod("parsers.mdit")
+    fields = _config_fields(corpus)
+    n = 0
+    for fi in mm.functions.values():
+        if fi.is_lambda:
+            continue
+        for c in fi.local_nodes():
+            if not (isinstance(c, ast.Call) and isinstance(c.func, ast.Attribute) and c.func.attr == "disable" and c.args):
+                continue
+            a0 = c.args[0]
+            # where do the names come from?  `for name in config.FIELD` / `config.FIELD` itself
+            src_field = None
+            if isinstance(a0, ast.Name):
+                for lp in fi.local_nodes():
+                    if isinstance(lp, ast.For) and isinstance(lp.target, ast.Name) and lp.target.id == a0.id and isinstance(lp.iter, ast.Attribute) and lp.iter.attr in fields:
+                        src_field = lp.iter.attr
+            elif isinstance(a0, ast.Attribute) and a0.attr in fields:
+                src_field = a0.attr
+            if isinstance(a0, (ast.Constant, ast.List, ast.Tuple)) and all(isinstance(x, ast.Constant) for x in ([a0] if isinstance(a0, ast.Constant) else a0.elts)):
+                vals = [a0.value] if isinstance(a0, ast.Constant) else [x.value for x in a0.elts]
+                n += 1
+                k = f"{fi.fq}|disable({short(a0, 40)})"
+                if catch_all in vals:
+                    rep.violation("C01.R11", k, fi.module.site(c), f"disables markdown-it's catch-all block rule `{catch_all}`: the block parser loops forever on any non-empty document")
+                else:
+                    rep.ok("C01.R11", k, fi.module.site(c), "constant rule names, none is the catch-all")
+                continue
+            if src_field is None:
+                rep.error("C01.R11", f"{fi.module.site(c)}: origin of the names passed to `{short(c, 40)}` not understood")
+                continue
+            n += 1
+            k = f"{fi.fq}|disable(<{src_field}>)"
+            site = fi.module.site(c)
+
+            def names_catch_all(test: ast.expr) -> bool:
+                """the test holds when the value is the catch-all name"""
+                parts = test.values if isinstance(test, ast.BoolOp) and isinstance(test.op, ast.Or) else [test]
+                for t in parts:
+                    if isinstance(t, ast.Compare) and len(t.ops) == 1 and isinstance(t.left, ast.Name):
+                        r = t.comparators[0]
+                        r = fi.module.const_nodes.get(r.id, r) if isinstance(r, ast.Name) else r
+                        if isinstance(t.ops[0], ast.Eq) and isinstance(r, ast.Constant) and r.value == catch_all:
+                            return True
+                        if isinstance(t.ops[0], ast.In) and isinstance(r, (ast.Tuple, ast.List, ast.Set)) and any(isinstance(x, ast.Constant) and x.value == catch_all for x in r.elts):
+                            return True
+                return False
+
+            guarded = False
+            unknown = None
+            for t, pol in _facts_at(fi, c):
+                if isinstance(a0, ast.Name) and any(isinstance(x, ast.Name) and x.id == a0.id for x in ast.walk(t)):
+                    if not pol and names_catch_all(t):
+                        guarded = True
+                    elif pol and isinstance(t, ast.Compare) and len(t.ops) == 1 and isinstance(t.ops[0], (ast.NotEq, ast.NotIn)):
+                        flipped = ast.Compare(left=t.left, ops=[ast.Eq() if isinstance(t.ops[0], ast.NotEq) else ast.In()], comparators=t.comparators)
+                        if names_catch_all(flipped):
+                            guarded = True
+                        else:
+                            unknown = unparse(t)
+                    else:
+                        unknown = unparse(t)
+            val = fields[src_field].get("validator")
+            if guarded:
+                rep.ok("C01.R11", k, site, f"the call is skipped for `{catch_all}`")
+            elif _validator_rejects(corpus, val, lambda t: _mentions_const(t, catch_all), lambda x: x != catch_all):
+                rep.ok("C01.R11", k, site, f"the validator of `{src_field}` rejects `{catch_all}`")
+            elif unknown is not None:
+                rep.error("C01.R11", f"{site}: `{short(c, 40)}` runs under `{unknown}`, which is not a recognised exclusion of `{catch_all}`")
+            else:
+                rep.violation(
+                    "C01.R11",
+                    k,
+                    site,
+                    f"every name in `{src_field}` (conf.py or front matter `myst: {{{src_field}: [{catch_all}]}}`) is handed to md.disable(); without its catch-all block rule "
+                    f"`{catch_all}` markdown-it's ParserBlock.tokenize never advances `line`: the parse does not terminate. The validator `{short(val or ast.Constant(None), 60)}` admits it",
+                )
+    rep.expect_min("C01.R11", 1, "md.disable() calls fed from the configuration")
+
+
+def _mentions_const(test: ast.expr, const) -> bool:
+    for x in ast.walk(test):
+        if isinstance(x, ast.Constant) and x.value == const:
+            return True
+    return False
+
+
+RULES = [
+    r1_failure_mode_closure, r2_token_line, r3_html_attr_none, r4_reentry_guards, r5_loop_progress, r6_yaml_narrowing, r7_single_registration,
+    r8_nullable_env_slots, r9_document_attributes, r10_config_divisors, r11_disable_syntax,
+]
 
 
 # ---------------------------------------------------------------------------
@@ -1581,6 +2324,61 @@ def mutants(corpus: Corpus):
         out.append(Mutant("c01-target-registered-explicit-and-implicit", "C01.R7", base.rel, splice(base.src, st, segment_(base.src, st) + f"\n{ind}" + segment_(base.src, st).replace("note_explicit_target", "note_implicit_target")), expect="render_myst_target|"))
     else:
         out.append(("c01-target-registered-explicit-and-implicit", "render_myst_target does not register its target"))
+    # --- render-environment slots that may hold None (R8) ---
+    sx = corpus.mod("mdit_to_docutils.sphinx_")
+    f = sx.func("SphinxRenderer._handle_relative_docs")
+    cmp_ = find_node(f, lambda n: isinstance(n, ast.Compare) and isinstance(n.ops[0], ast.IsNot) and isinstance(n.comparators[0], ast.Constant) and n.comparators[0].value is None)
+    if cmp_ is not None:
+        out.append(Mutant("c01-relative-docs-presence-test", "C01.R8", sx.rel, splice(sx.src, cmp_, '"relative-docs" in self.md_env'), expect="relative-docs", canary=True))
+        bo = parent(cmp_)
+        if isinstance(bo, ast.BoolOp) and isinstance(bo.op, ast.And) and len(bo.values) == 2 and bo.values[0] is cmp_:
+            out.append(Mutant("c01-relative-docs-none-test-dropped", "C01.R8", sx.rel, splice(sx.src, bo, segment_(sx.src, bo.values[1])), expect="relative-docs"))
+    else:
+        out.append(("c01-relative-docs-presence-test", "_handle_relative_docs has no `is not None` test"))
+    # --- MyST-specific document attributes read by transforms (R9) ---
+    tm = corpus.mod("mdit_to_docutils.transforms")
+    f = tm.func("ResolveAnchorIds.apply")
+    ga = find_node(f, lambda n: isinstance(n, ast.Call) and dotted(n.func) == "getattr" and len(n.args) == 3 and isinstance(n.args[1], ast.Constant) and n.args[1].value == "myst_slugs")
+    if ga is not None:
+        out.append(Mutant("c01-slugs-read-without-default", "C01.R9", tm.rel, splice(tm.src, ga, f"{unparse(ga.args[0])}.myst_slugs"), expect="document.myst_slugs"))
+        out.append(Mutant("c01-slugs-read-or-default", "C01.R9", tm.rel, splice(tm.src, ga, f"({unparse(ga.args[0])}.myst_slugs or {{}})"), expect="document.myst_slugs"))
+    else:
+        out.append(("c01-slugs-read-without-default", "ResolveAnchorIds.apply does not read myst_slugs through getattr"))
+    # --- the YAML branch of the option parser becomes live for the renderer (R1 flag filter) ---
+    f = base.func("DocutilsRenderer.run_directive")
+    pc = find_node(f, lambda n: isinstance(n, ast.Call) and (dotted(n.func) or "").split(".")[-1] == "parse_directive_text")
+    yh = find_node(dm.func("_parse_directive_options"), lambda n: isinstance(n, ast.ExceptHandler) and n.type is not None and "YAMLError" in unparse(n.type))
+    if yh is not None and any(x in unparse(yh.type) for x in ("ValueError", "Exception")):
+        pass  # the YAML branch no longer leaks anything: making it live is harmless
+    elif pc is not None and not any(k.arg == "validate_options" for k in pc.keywords):
+        last = (pc.keywords[-1].value if pc.keywords else pc.args[-1])
+        out.append(Mutant("c01-renderer-parses-options-as-yaml", "C01.R1", base.rel, splice(base.src, last, segment_(base.src, last) + ", validate_options=False"), expect="yaml.safe_load(options_block"))
+    else:
+        out.append(("c01-renderer-parses-options-as-yaml", "run_directive does not call parse_directive_text without validate_options"))
+    # --- repairs of the round-4 findings, reverted (emitted once the repaired shape is in the tree) ---
+    for q in ("DocutilsRenderer.render_link_inventory", "DocutilsRenderer.render_link_url"):
+        f = base.func(q)
+        up = find_node(f, lambda n: isinstance(n, ast.Call) and dotted(n.func) in ("urlparse", "urlsplit"))
+        tr_ = next((a for a in ancestors(up) if isinstance(a, ast.Try)), None) if up is not None else None
+        if tr_ is not None and any(up in ast.walk(b) for b in tr_.body):
+            h = next((h for h in tr_.handlers if h.type is not None and "ValueError" in unparse(h.type)), None)
+            if h is not None:
+                out.append(Mutant(f"c01-urlparse-handler-narrowed-{q.split('_')[-1]}", "C01.R1", base.rel, splice(base.src, h.type, "KeyError"), expect="urlparse("))
+    ci = corpus.cls("config.main:MdParserConfig")
+    flds = _config_fields(corpus)
+    wpm = next((st for st in ci.node.body if isinstance(st, ast.AnnAssign) and isinstance(st.target, ast.Name) and st.target.id == "words_per_minute"), None)
+    v_ = flds.get("words_per_minute", {}).get("validator")
+    if wpm is not None and v_ is not None and _validator_rejects(corpus, v_, _excludes_zero, lambda x: isinstance(x, (int, float)) and x != 0):
+        out.append(Mutant("c01-words-per-minute-validator-admits-zero", "C01.R10", cm.rel, splice(cm.src, v_, "instance_of(int)"), expect="words_per_minute"))
+    mdm = corpus.mod("parsers.mdit")
+    f = mdm.func("create_md_parser")
+    dc_ = find_node(f, lambda n: isinstance(n, ast.Call) and isinstance(n.func, ast.Attribute) and n.func.attr == "disable")
+    gi = next((a for a in ancestors(dc_) if isinstance(a, ast.If)), None) if dc_ is not None else None
+    if gi is not None and "paragraph" in unparse(gi.test):
+        out.append(Mutant("c01-disable-syntax-guard-dropped", "C01.R11", mdm.rel, splice(mdm.src, gi.test, "True" if any(dc_ in ast.walk(b) for b in gi.body) else "False"), expect="disable(<"))
+    v_ = flds.get("disable_syntax", {}).get("validator")
+    if v_ is not None and _validator_rejects(corpus, v_, lambda t: _mentions_const(t, "paragraph"), lambda x: x != "paragraph"):
+        out.append(Mutant("c01-disable-syntax-validator-weakened", "C01.R11", cm.rel, splice(cm.src, v_, "deep_iterable(instance_of(str), instance_of((list, tuple)))"), expect="disable(<"))
     # once the heading double registration is repaired by isolating the implicit name: the repair reverted
     f = base.func("DocutilsRenderer.generate_heading_target")
     iso = find_node(
